@@ -88,7 +88,8 @@ def rand_corpus(rng, nmax=6, typed=None):
             break
         sp = rand_mapping(rng, SP_KEYS, "n")
         if typed is not None:
-            fam = {"num": INTS + IFLOATS + FLOATS + BOOLS, "str": STRS, "list": [[1], [1, 2], [2], [1.0], []]}[typed]
+            fam = {"num": INTS + IFLOATS + FLOATS + BOOLS, "str": STRS, "list": [[1], [1, 2], [2], [1.0], [], [{"k": 1, "m": 2}], [{"m": 2, "k": 1}],
+                            [1, {"k": [1, {"z": 0, "y": 1}]}]]}[typed]
             for k in SP_KEYS + LOOKALIKE_SP_KEYS:
                 if k in sp and not isinstance(sp[k], dict):
                     sp[k] = rng.choice(fam)
